@@ -6,6 +6,7 @@ import common
 import dataflow
 import exprtree
 import guardtable as GT
+import hashsites
 import literals
 import panics
 from common import *
@@ -192,7 +193,9 @@ def auto_discharge(db, fn, site, T, fl, dom, guards):
         if d == 'index':
             tr = T.operand(args[1]) if len(args) > 1 else None
             base = exprtree.show(T.operand(args[0])) if args else ''
-            if isinstance(tr, tuple) and tr[0] == 'agg' and tr[1].startswith('core::ops::range::Range') and 'finalize' in base:
+            bt = T.operand(args[0]) if args else None
+            is_digest = 'finalize' in base or (isinstance(bt, tuple) and bt and isinstance(bt[0], str) and hashsites.is_hash_helper(db, bt[0]))
+            if isinstance(tr, tuple) and tr[0] == 'agg' and tr[1].startswith('core::ops::range::Range') and is_digest:
                 kind = tr[1].split('::')[-1]
                 s_, e_ = tr[3].get('start'), tr[3].get('end')
                 sv = s_[1] if s_ and s_[0] == 'val' else None
